@@ -992,7 +992,7 @@ pub fn run_qop(ctx: &mut Ctx, case: &Value) {
     ctx.check("C11", "same content: ==, hash, cmp agree", "Qualifiers",
               direct == q && hash_of(&direct) == hash_of(&q) && direct.cmp(&q) == std::cmp::Ordering::Equal, &Value::Null, &Value::Null);
     qop_step(ctx, &mut q, &case["op"], &case["res"], &case["post"]);
-    if ctx.samples.len() < 2 {
+    if ctx.samples.len() < 2 && case["pre"].as_array().map(|a| a.len() >= 2).unwrap_or(false) && case["pre"] != case["post"] {
         ctx.samples.push(json!({"kind": "qualifier transition", "case": case}));
     }
 }
